@@ -14,6 +14,8 @@ Clauses (each one is a sentence of the property statement):
   names-resolve   every ExprName of the flat iteration of every expression (roots and the tails of dotted chains) has the same
                   canonical_path and the same path before and after; same for the canonical_path of keyword arguments
   minimal-is-enough  the tree reloaded from the minimal dump has the original's full dump (no docstring parser)
+  (deep)          dump-total / reload-total / identical-json on expressions nested 100-450 levels (8 shapes), when the visitor
+                  loaded them
   cli             `griffe dump` (in-process griffe.main, stdout / -o file / -o '{package}.json'; each package requested by
                   name, relative path, ./relative/path/, absolute path or dotted sub-module) emits, per requested
                   package, exactly json.loads(module.as_json(full=f)) of an identically configured loader; exit code 0
@@ -759,6 +761,78 @@ def _check_cli(case, observe=None) -> list[Fail]:
             _purge(names, [str(root)])
 
 
+# ----------------------------------------------------------------------------- deeply nested expressions
+DEEP_SHAPES = ("binop-left", "str-add-left", "pow-right", "unary", "subscript-left", "call-left", "ifexp-right", "attribute-chain")
+DEEP_DEPTHS = (100, 200, 300, 400, 450)
+
+
+def deep_expr_text(shape: str, depth: int) -> str:
+    """Source text of an expression nested `depth` levels (no parentheses/brackets are nested: the tokenizer allows 200)."""
+    if shape == "binop-left":  # ((A | B) | C) | ...
+        return " | ".join(["A"] + [f"B{i % 7}" for i in range(depth)])
+    if shape == "str-add-left":
+        return " + ".join(["'a'"] + [f"'b{i % 7}'" for i in range(depth)])
+    if shape == "pow-right":  # a ** (b ** (c ** ...))
+        return " ** ".join(["A"] + [f"B{i % 7}" for i in range(depth)])
+    if shape == "unary":
+        return "not " * depth + "A"
+    if shape == "subscript-left":  # A[0][1][2]...
+        return "A" + "".join(f"[{i % 7}]" for i in range(depth))
+    if shape == "call-left":  # A()()()...
+        return "A" + "()" * depth
+    if shape == "ifexp-right":  # A if B else (A if B else (...))
+        return "A if B else " * depth + "C"
+    if shape == "attribute-chain":  # A.b.b.b (one flat ExprAttribute)
+        return "A" + ".b" * depth
+    raise ValueError(shape)
+
+
+def _check_deep(case, observe=None) -> list[Fail]:
+    """dump-total / reload-total / identical-json (+ minimal-is-enough) on a module whose attribute value and annotation,
+    parameter default and decorator are one expression nested `depth` levels. Only trees that were loaded count: when the
+    visitor itself gave the expression up (it logs an error and stores None) the case is skipped. The structural walk is
+    not run: str() and the flat iteration of expressions recurse deeper than the serialisation does."""
+    import griffe
+    from _griffe.expressions import Expr
+
+    text = deep_expr_text(case["shape"], case["depth"])
+    with _workdir(case) as root, warnings.catch_warnings():
+        warnings.simplefilter("ignore")
+        pkg = root / "c08deep"
+        pkg.mkdir()
+        (pkg / "__init__.py").write_text(f"x: {text} = {text}\n@({text})\ndef f(a={text}): ...\n", encoding="utf8")
+        loader = griffe.GriffeLoader(search_paths=[str(root)])
+        try:
+            module = loader.load("c08deep")
+        except Exception as exc:  # noqa: BLE001
+            if observe is not None:
+                observe["skip"] = f"load-error:{type(exc).__name__}"
+            return []
+        loaded = [module["x"].value, module["x"].annotation, module["f"].parameters["a"].default] + [d.value for d in module["f"].decorators]
+        if len(loaded) < 4 or not all(isinstance(e, Expr) for e in loaded):
+            if observe is not None:
+                observe["skip"] = "visitor-gave-up"
+            return []
+        fails: list[Fail] = []
+        dumps: dict = {}
+        for full in (False, True):
+            form = "full" if full else "min"
+            try:
+                J = call("dump-total", module.as_json, full=full, what=f"as_json(full={full}) of a {case['shape']} expression nested {case['depth']} deep")
+                dumps[form] = J
+                again = call("reload-total", griffe.Module.from_json, J, what=f"from_json of the {form} dump ({case['shape']}, depth {case['depth']})")
+                J2 = call("identical-json", again.as_json, full=full, what=f"as_json(full={full}) of the reloaded tree ({case['shape']}, depth {case['depth']})")
+            except GriffeRaised as gr:
+                gr.fail.kind = f"deep:{form}:{gr.fail.kind}"
+                fails.append(gr.fail)
+                continue
+            if J2 != J:
+                fails.append(Fail("identical-json", f"deep:{form}", f"{form} form of a {case['shape']} expression nested {case['depth']} deep is not reproduced by the reloaded tree"))
+        if observe is not None:
+            observe["deep"] = True
+        return fails
+
+
 def root_logger_cleanup() -> None:
     """griffe.main calls logging.basicConfig: drop the handler it installs so that nothing accumulates."""
     import logging
@@ -774,6 +848,8 @@ def check_case(case, observe=None) -> list[Fail]:
         return _check_pkg(case, observe)
     if kind == "builtin":
         return _check_builtin(case, observe)
+    if kind == "deep":
+        return _check_deep(case, observe)
     if kind == "cli":
         return _check_cli(case, observe)
     raise ValueError(f"unknown case kind {kind!r}")
@@ -1023,6 +1099,19 @@ def run_shard(ctx) -> None:
         fails = run_check(lambda c, o=observed: check_case(c, o), case)
         key, classes, sample = describe_with(observed, case)
         ctx.case(key, classes, sample, enumerated=key is not None)
+        for f in fails:
+            ctx.fail(f, case)
+
+    # very deeply nested expressions (enumerated, outside Hypothesis so that the stack they start from is shallow)
+    deep = [(sh, d) for sh in DEEP_SHAPES for d in DEEP_DEPTHS]
+    for i, (sh, d) in enumerate(deep):
+        if i % ctx.nshards != ctx.shard:
+            continue
+        case = {"kind": "deep", "shape": sh, "depth": d}
+        observed = {}
+        fails = run_check(lambda c, o=observed: check_case(c, o), case)
+        label = "skip:" + observed["skip"] if "skip" in observed else "roundtrip"
+        ctx.case(("deep", sh, d) if "deep" in observed else None, ("kind:deep", f"deep:{sh}:{label}", f"deep:depth={d}:{label}"), None, enumerated="deep" in observed)
         for f in fails:
             ctx.fail(f, case)
 
